@@ -16,6 +16,7 @@ EXPL = ("Decides: SA-SIBLING: the per-byte regions of update / update_by_iter / 
 
 def run(ctx):
     cfgs = ["rel", "unsafe"] if ctx.tier == "quick" else ["rel", "dbg", "unsafe", "unsafe_dbg", "fnv", "nodef"]
+    ctx.progs(cfgs)  # build all configurations in parallel
     for c in cfgs:
         prog = ctx.prog(c)
         ctx.guard("C03", "siblings", lambda: engine.siblings(ctx, prog))
@@ -23,6 +24,7 @@ def run(ctx):
         ctx.guard("C03", "account", lambda: engine.accounting(ctx, prog))
         ctx.guard("C03", "outside", lambda: engine.outside_loop_writes(ctx, prog))
         ctx.guard("C03", "pure", lambda: engine.finalize_pure(ctx, prog))
+        ctx.guard("C03", "writers", lambda: gen.field_writers(ctx, prog))
         ctx.guard("C03", "addassign", lambda: engine.add_assign_forms(ctx, prog))
         ctx.guard("C03", "delegate", lambda: gen.finalizers_delegate(ctx, prog))
         if c.startswith("unsafe"):
